@@ -155,7 +155,7 @@ def check(pid: str, tier: str, seed: int, replay_path: str = None) -> int:
             traces = pool.run_tasks(tasks)
         # (4) validation
         verdict = tlc.validate_traces(traces, wd, "main")
-        if verdict["events"] != verdict["expected_events"]:
+        if verdict["events"] + verdict.get("skipped", 0) != verdict["expected_events"]:
             raise tlc.MachineryError("TLC judged %d events, %d were recorded" % (
                 verdict["events"], verdict["expected_events"]))
         by_id = {t["id"]: t for t in traces}
